@@ -129,6 +129,7 @@ func c08Run(sc c07Scenario, f *c08Fault, idseed uint64) (res c08Result) {
 			pc := w.env.NewUnregisteredPackClient(w.col, fmt.Sprintf("c%d", len(w.clients)))
 			c := &l1Client{idx: len(w.clients), pc: pc, dts: map[string]*l1DT{}}
 			w.clients = append(w.clients, c)
+			knownCUIDs[pc.CUID()] = true
 			pending[c.idx] = pc
 		case "open":
 			w.open(w.clients[st.C], k, st.Mode)
